@@ -43,6 +43,8 @@ class Libm:
         for n in ("sin", "cos"):
             getattr(m, n).restype = D
             getattr(m, n).argtypes = [D]
+        m.atan2.restype = D
+        m.atan2.argtypes = [D, D]
         m.sincos.restype = None
         m.sincos.argtypes = [D, ctypes.POINTER(D), ctypes.POINTER(D)]
         self.m = m
@@ -197,7 +199,19 @@ def rotation_cases(ctx, clib, libm, n):
                 x = [1.0, 0.0, 0.0]
             else:
                 z = [0.0, 0.0, rng.choice([1.0, -1.0, -3.0])]; x = [rng.choice([1.0, -1.0, -2.0]), 0.0, 0.0]   # antiparallel stages
-            cases.append((kind, "(r_to_new_axes %s %s)" % (Vc(z), Vc(x)), lq(clib.reb_rotation_init_to_new_axes(v3(z), v3(x))), (z, x)))
+            # the argument of atan2 is obtained with the exported functions (each compared with the model on its own) and is itself
+            # part of the compared output; cos/sin of the half angle are libm oracles
+            nz = clib.reb_vec3d_normalize(v3(z))
+            d = clib.reb_vec3d_dot(nz, v3(x))
+            nx = clib.reb_vec3d_add(v3(x), clib.reb_vec3d_mul(nz, -d))
+            q1 = clib.reb_rotation_init_from_to(nz, V3(0.0, 0.0, 1.0))
+            r = clib.reb_vec3d_rotate(nx, q1)
+            ang = -libm.m.atan2(r.y, r.x)
+            cs = libm.cs(ang / 2.0)
+            if cs is None:
+                skipped += 1; continue
+            cases.append((kind, "(r_to_new_axes %s %s %s %s)" % (vlib.fhex(cs[0]), vlib.fhex(cs[1]), Vc(z), Vc(x)),
+                          lv(r) + lq(clib.reb_rotation_init_to_new_axes(v3(z), v3(x))), (z, x)))
         elif kind == "orbit":
             Om, inc, om = [rng.choice([0.0, rng.uniform(-7, 7), math.pi]) for _ in range(3)]
             o = [libm.cs(om / 2.0), libm.cs(inc / 2.0), libm.cs(Om / 2.0)]
@@ -379,9 +393,13 @@ def units_cases(ctx, rebound, clib):
         rng.shuffle(order)
         if rng.random() < 0.3:
             order = [s.upper() if rng.random() < 0.5 else s.capitalize() for s in order]
-        sim.units = tuple(order)
-        g = sim.G
-        back = sim.units
+        try:
+            sim.units = tuple(order)
+            g = sim.G
+            back = sim.units
+        except Exception as e:
+            pyfail.append({"units_set": order, "exception": repr(e)})
+            continue
         if (back["length"], back["time"], back["mass"]) != (l, t, m):
             pyfail.append({"units_set": order, "units_read_back": back})
         fn, fd = g.as_integer_ratio() if math.isfinite(g) else (0, 1)
@@ -423,7 +441,7 @@ def run(ctx):
     libm = Libm()
 
     # ---- rotations
-    rc, skipped = rotation_cases(ctx, clib, libm, ctx.scale(1200, 20000))
+    rc, skipped = rotation_cases(ctx, clib, libm, ctx.scale(3000, 30000))
     ok1, bad1 = eval_float_cases(ctx, "rot", rc)
     ctx.obligation("correspondence:C20 rotation model(binary64) == reb_vec3d_*/reb_rotation_* bit-for-bit on %d calls (%d skipped: sin/cos vs sincos disagree)"
                    % (len(rc), skipped), ok1 and not bad1, "mismatching: %s" % [(rc[b][0], rc[b][3]) for b in bad1[:6]])
@@ -444,7 +462,7 @@ def run(ctx):
     ctx.obligation("correspondence:C20 sim_rotate(binary64) == reb_simulation_irotate on %d simulations" % len(sc), ok2 and not bad2,
                    "mismatching: %s" % [sc[b][3] for b in bad2[:4]])
     # ---- frames
-    fc, pyfail = frame_cases(ctx, rebound, clib, ctx.scale(100, 1500))
+    fc, pyfail = frame_cases(ctx, rebound, clib, ctx.scale(300, 3000))
     ok3, bad3 = eval_float_cases(ctx, "frames", fc)
     ctx.obligation("correspondence:C20 frame model(binary64) == reb_simulation_com/move_to_com(+1st/2nd order variations)/move_to_hel/imul/iadd/isub "
                    "bit-for-bit on %d component recurrences" % len(fc), ok3 and not bad3 and not pyfail,
